@@ -4,9 +4,12 @@ tier="${1:-quick}"; shift || true
 cd "$(dirname "$0")/.."
 ids="$*"
 [ -n "$ids" ] || ids=$(python3 -c "import json;print(' '.join(c['property_id'] for c in json.load(open('MANIFEST.json'))['checks']))")
+tmp=$(mktemp /dev/shm/run_all.XXXXXX)
 for id in $ids; do
   start=$(date +%s)
-  out=$(./check "$id" --tier "$tier" 2>&1); rc=$?
+  ./check "$id" --tier "$tier" > "$tmp" 2>&1; rc=$?
   end=$(date +%s)
-  echo "$id rc=$rc wall=$((end-start))s known=$(echo "$out" | grep -c '^KNOWN-FINDING') viol=$(echo "$out" | grep -c '^VIOLATION') :: $(echo "$out" | tail -1 | cut -c1-160)"
+  echo "$id rc=$rc wall=$((end-start))s known=$(grep -c '^KNOWN-FINDING' "$tmp") viol=$(grep -c '^VIOLATION' "$tmp") :: $(tail -1 "$tmp" | cut -c1-160)"
+  if [ "$rc" != 0 ]; then grep -A1 '^VIOLATION\|^INTERNAL' "$tmp" | cut -c1-400 | head -12 | sed 's/^/    /'; fi
 done
+rm -f "$tmp"
